@@ -19,8 +19,10 @@ fn versions(lang: Lang) -> Vec<(&'static str, Vec<(&'static str, String)>)> {
     let _ = lang;
     // outputs well beyond common buffer sizes (8 KiB, 64 KiB): 700 structs
     let large: String = (0..700).map(|i| format!("#[typeshare]\npub struct Big{i:03} {{ pub first_field_of_the_struct: u32, pub second_field_of_the_struct: Option<String>, pub third: Vec<Big000> }}\n")).collect();
-    let large_changed = large.replace("pub struct Big699 { pub first_field_of_the_struct: u32", "pub struct Big699 { pub first_field_of_the_struct: u16");
-    // order matters: the quick tier takes the first six
+    // the same length in every language, and far beyond the first 8 KiB / 64 KiB of the output: one member renamed
+    let large_changed = large.replace("pub struct Big699 { pub first_field_of_the_struct: u32", "pub struct Big699 { pub first_field_of_the_strucx: u32");
+    debug_assert_ne!(large, large_changed);
+    // order matters: the quick tier takes the first seven
     vec![
         ("V0-base", vec![("ws/x/src/lib.rs", format!("{a}\n{b}"))]),
         ("V1-type-added", vec![("ws/x/src/lib.rs", format!("{a}\n{b}\n{c}"))]),
@@ -29,12 +31,12 @@ fn versions(lang: Lang) -> Vec<(&'static str, Vec<(&'static str, String)>)> {
         ("V7-later-crate-changed", vec![("ws/x/src/lib.rs", a.to_string()), ("ws/y/src/lib.rs", format!("use x::Alpha;\n{b_renamed}\n{unit_user}"))]),
         ("V4-uses-unit", vec![("ws/x/src/lib.rs", format!("{a}\n{unit_user}"))]),
         ("V9-large-output", vec![("ws/x/src/lib.rs", format!("{a}\n{large}"))]),
+        // differs from V9 only near the end of a large output, by bytes only: every file has the same length as before
+        ("V10-large-output-tail-changed-same-length", vec![("ws/x/src/lib.rs", format!("{a}\n{large_changed}"))]),
         ("V2-renamed-and-changed", vec![("ws/x/src/lib.rs", format!("{a}\n{b_renamed}"))]),
         ("V5-unit-removed", vec![("ws/x/src/lib.rs", format!("{a}\n{no_unit}"))]),
         // only the earlier crate differs from V3
         ("V8-earlier-crate-changed", vec![("ws/x/src/lib.rs", format!("{a}\n{c}")), ("ws/y/src/lib.rs", format!("use x::Alpha;\n{b}"))]),
-        // differs from V9 only near the end of a large output
-        ("V10-large-output-tail-changed", vec![("ws/x/src/lib.rs", format!("{a}\n{large_changed}"))]),
         ("V6-nothing-annotated", vec![("ws/x/src/lib.rs", "pub struct Plain { pub a: u32 }\n".to_string())]),
     ]
 }
@@ -57,7 +59,8 @@ fn out_rel(lang: Lang, multi: bool) -> String {
     }
 }
 
-/// `loc`: "plain" — the output path is an ordinary file / directory; "through-symlink" — the output file (single-file mode,
+/// `loc`: "plain" — the output path is an ordinary file / directory; "configured" — the same, run with a typeshare.toml
+/// whose multi-valued settings each have several entries; "through-symlink" — the output file (single-file mode,
 /// when it exists) or the output directory (multi-file mode) is a symbolic link to the real one
 fn step(lang: Lang, multi: bool, loc: &str, version: &[(&'static str, String)], before: &State) -> StepResult {
     let sc = Scratch::new("c17");
@@ -83,6 +86,12 @@ fn step(lang: Lang, multi: bool, loc: &str, version: &[(&'static str, String)], 
         set_mtime(&p, old_time());
     }
     let mut args = cli::lang_args(lang);
+    if loc == "configured" {
+        // every multi-valued setting with several entries: their order in the output is part of the bytes
+        let toml = "[swift]\ndefault_decorators = [\"Sendable\", \"Identifiable\"]\ndefault_generic_constraints = [\"Sendable\", \"Hashable\", \"Equatable\"]\ncodablevoid_constraints = [\"Equatable\", \"Hashable\", \"Comparable\", \"Sendable\"]\n\n[go]\nuppercase_acronyms = [\"ID\", \"URL\", \"API\"]\n\n[typescript.type_mappings]\nBlob = \"Uint8Array\"\nStamp = \"Date\"\n\n[kotlin.type_mappings]\nBlob = \"ByteArray\"\nStamp = \"String\"\n";
+        let p = sc.write("cfg/typeshare.toml", toml.as_bytes());
+        args.extend([s("-c"), p.to_string_lossy().into_owned()]);
+    }
     args.extend([s(if multi { "-d" } else { "-o" }), sc.path(&out_rel(lang, multi)).to_string_lossy().into_owned()]);
     args.push(sc.path("ws").to_string_lossy().into_owned());
     let r = run_cli(&args, &sc.root, &[], cli::TIMEOUT);
@@ -230,10 +239,11 @@ pub fn run(args: &[String]) -> i32 {
     let thorough = rep.thorough();
     const P: &str = "plain";
     const L: &str = "through-symlink";
+    const G: &str = "configured";
     let graphs: Vec<(Lang, bool, &'static str, usize)> = if thorough {
-        ALL_LANGS.iter().flat_map(|l| [(*l, false, P, 11), (*l, true, P, 11), (*l, false, L, 6), (*l, true, L, 6)]).collect()
+        ALL_LANGS.iter().flat_map(|l| [(*l, false, P, 11), (*l, true, P, 11), (*l, false, L, 7), (*l, true, L, 7), (*l, false, G, 7), (*l, true, G, 7)]).collect()
     } else {
-        vec![(Lang::Swift, true, P, 6), (Lang::Swift, false, P, 6), (Lang::TypeScript, true, P, 6), (Lang::TypeScript, false, P, 6), (Lang::Kotlin, true, P, 6), (Lang::Swift, false, L, 4), (Lang::Go, false, L, 4), (Lang::Swift, true, L, 4)]
+        vec![(Lang::Swift, true, P, 7), (Lang::Swift, false, P, 7), (Lang::TypeScript, true, P, 7), (Lang::TypeScript, false, P, 7), (Lang::Kotlin, true, P, 7), (Lang::Swift, false, L, 4), (Lang::Go, false, L, 4), (Lang::Swift, true, L, 4), (Lang::Swift, true, G, 5), (Lang::Swift, false, G, 5), (Lang::Go, false, G, 5)]
     };
     let results = par_map(&graphs, report::threads(), |(l, m, loc, n)| explore_graph(*l, *m, loc, *n, 400));
     let mut states = 0;
@@ -260,7 +270,7 @@ pub fn run(args: &[String]) -> i32 {
     rep.cov("distinct_nontrivial", json!(states));
     rep.cov("graphs", json!(per_graph));
     rep.cov("exhaustive", json!(true));
-    rep.cov("rule", json!("per (language, mode, output location: plain, or reached through a symbolic link): breadth-first search over the states of the output location (file name → bytes), starting from the empty location, from one pre-filled with foreign bytes, and from every complete earlier output with one generated file missing; the actions are `run the real binary on source-tree version v`; explored to closure, which covers run histories of every length over the version alphabet. On every transition: same exit status as a fresh run, every file of the fresh run has the fresh content, a file with unchanged bytes keeps its mtime, a failing run changes nothing."));
+    rep.cov("rule", json!("per (language, mode, output location: plain, plain with a configuration file whose list-valued settings have several entries, or reached through a symbolic link): breadth-first search over the states of the output location (file name → bytes), starting from the empty location, from one pre-filled with foreign bytes, and from every complete earlier output with one generated file missing; the actions are `run the real binary on source-tree version v`; explored to closure, which covers run histories of every length over the version alphabet. On every transition: same exit status as a fresh run, every file of the fresh run has the fresh content, a file with unchanged bytes keeps its mtime, a failing run changes nothing."));
     rep.assume("the binary reads nothing from the output location except the files it compares against, so equal bytes mean equal futures (mtimes are normalised before each step and checked on each transition)");
     rep.assume("stale files of crates that disappeared are not judged (the property does not ask for deletion)");
     rep.finish()
